@@ -131,6 +131,31 @@ func runCase(c Case, st *stats) (fails []fail, obs string) {
 			bc   *tengo.Bytecode
 		}{"B2-dedup+gob", b2})
 	}
+	// idempotence: de-duplicating twice, and a second Encode/Decode of decoded bytecode
+	d4 := tg.CompileDirect(src.Main.Src, in0, mm, false, false)
+	func() {
+		defer func() {
+			if r := recover(); r != nil {
+				add("dedup/panic-second-pass", fmt.Sprint(r))
+			}
+		}()
+		d4.Bytecode.RemoveDuplicates()
+		d4.Bytecode.RemoveDuplicates()
+	}()
+	variants = append(variants, struct {
+		name string
+		bc   *tengo.Bytecode
+	}{"B4-dedup-twice", d4.Bytecode})
+	if len(variants) > 1 {
+		if b5, err, pan := roundTrip(variants[1].bc, mm); pan != "" || err != nil {
+			add("serialise/B5-fails", fmt.Sprintf("second Encode/Decode failed: %v %s", err, pan))
+		} else {
+			variants = append(variants, struct {
+				name string
+				bc   *tengo.Bytecode
+			}{"B5-dedup+gob-twice", b5})
+		}
+	}
 	if b3, err, pan := roundTrip(d0.Bytecode, mm); pan != "" || err != nil {
 		add("serialise/B3-fails", fmt.Sprintf("Encode/Decode of original bytecode failed: %v %s", err, pan))
 	} else {
